@@ -1,5 +1,5 @@
 import ExoVerif.Driver.Common
-import ExoVerif.Model.DistributionParams
+import ExoVerif.Model.DistributionBatch
 /- driver for the C17 correspondence.
    ops:  distr.reset
          distr.cfg <distrId> <mintId> <reward> <taxRaw>
@@ -13,6 +13,10 @@ import ExoVerif.Model.DistributionParams
          distr.distrparams <tx|srv> <id> <taxRaw|nil>   x/feedistribution MsgUpdateParams (tx: ValidateBasic first; srv: the handler
                                                         directly) → ok|rej:tax|rej:epoch <id> <taxRaw> (params in force)
          distr.distrvb <id> <taxRaw|nil>                x/feedistribution MsgUpdateParams.ValidateBasic alone → ok|rej
+         distr.batch <gov|sim> <n> { mint <denom> <reward|nil> <id> | distr <id> <taxRaw|nil> }*
+                                                        the messages as ONE unit on a branch of the state (gov: proposal execution /
+                                                        runMsgs, written back iff no message is refused; sim: never written)
+                                                        → ok|rej <denom> <reward> <id>|<id> <taxRaw> (params in force)
    strings of the params ops are escaped (`%` = empty, %20 space, %09 tab, %25 percent).
    The configuration a block runs under is `cfgOf native params` (Model/DistributionParams.lean): it follows every
    accepted parameter update.
@@ -82,8 +86,33 @@ def parseVals : Nat → List String → Option (List ValIn)
     | _, _, _ => none
   | _, _ => none
 
+def parseBMsgs : Nat → List String → Option (List BMsg)
+  | 0, [] => some []
+  | 0, _ => none
+  | n + 1, "mint" :: denom :: rw :: id :: rest =>
+    let reward? : Option (Option Int) := if rw == "nil" then some none else (parseInt? rw).map some
+    match reward?, parseBMsgs n rest with
+    | some reward, some ms => some (.mint { denom := unesc denom, reward := reward, id := unesc id } :: ms)
+    | _, _ => none
+  | n + 1, "distr" :: id :: tx :: rest =>
+    let tax? : Option (Option Int) := if tx == "nil" then some none else (parseInt? tx).map some
+    match tax?, parseBMsgs n rest with
+    | some tax, some ms => some (.distr { id := unesc id, tax := tax } :: ms)
+    | _, _ => none
+  | _, _ => none
+
 def step (d : DS) (w : List String) : DS × String :=
   match w with
+  | "distr.batch" :: route :: n :: rest =>
+    match parseNat? n with
+    | some n =>
+      match parseBMsgs n rest with
+      | some msgs =>
+        let p' := applyBatch (route == "gov") d.es d.params msgs
+        let st := if (batchBranch d.es d.params msgs).isSome then "ok" else "rej"
+        ({ d with params := p' }, s!"{st} {showMint p'.mint}|{showDistr p'.distr}")
+      | none => (d, "bad-op")
+    | none => (d, "bad-op")
   | ["distr.reset"] => (init, "ok")
   | "distr.note" :: _ => (d, "ok")
   | ["distr.cfg", dId, mId, rw, tx] =>
